@@ -563,6 +563,9 @@ nfa, with no epsilon transition
                     enfa.add_transition(state, symbol, trash)
         for symbol in self._input_symbols:
             enfa.add_transition(trash, symbol, trash)
+        if not enfa.start_states:
+            # Nothing was accepted, so everything is
+            enfa.add_start_state(trash)
         return enfa
 
     def __neg__(self):
